@@ -12,7 +12,7 @@ ASSUMPTIONS = [
     "same cycle; commit together with discard of the same port = discard (the commit is ignored)",
     "read_data is compared with the queue head only in cycles where empty = 0 (it is documented as valid only then); the "
     "lock-step tie and the correspondence runs nevertheless compare the raw read_data register in every cycle",
-    "R lock-step tie configurations (depth, width): (1,1) (2,1) (3,1) quick; plus (2,2) (4,1) (5,1) thorough.  Correspondence "
+    "R lock-step tie configurations (depth, width): (1,1) (2,1) (3,1) quick; plus (2,2) thorough.  Correspondence "
     "configurations: (4,8) (16,8) (127,10) quick; plus (6,3) (64,10) (1023,10) thorough; (127,10) and (1023,10) are what "
     "USBStreamOutEndpoint instantiates for 64- and 512-byte packets.  Other sizes rest on the parametric theorem about the model.",
     "reset: the FIFO is observed from power-on (all pointers 0, memory 0); synchronous reset input tied to 0",
@@ -39,7 +39,7 @@ def targets(tier):
     small = [(1, 1), (2, 1), (3, 1)]
     big = [(4, 8), (16, 8), (127, 10)]
     if tier != "quick":
-        small += [(2, 2), (4, 1), (5, 1)]
+        small += [(2, 2)]
         big += [(6, 3), (64, 10), (1023, 10)]
     return [mk(d, w, False) for d, w in small] + [mk(d, w, True) for d, w in big]
 
@@ -59,6 +59,7 @@ PROFILES = [
 def traces(target, rng, tier):
     depth, width = target.params["depth"], target.params["width"]
     n = (14 if tier == "quick" else 60) if target.big else (20 if tier == "quick" else 80)
+    if depth > 500: n = min(n, 21)
     out = []
     for k in range(n):
         p = PROFILES[k % len(PROFILES)]
